@@ -685,3 +685,23 @@ func Forward(v ssa.Value) ssa.Value {
 	}
 	return v
 }
+
+// CheckedOrGuardedBy reports whether instruction x executes only where the
+// boolean result of call c was tested true (x is guarded by a condition that
+// derives from c's result), e.g. `if p.Match(k, &m) && m.CommonPrefix { x }`.
+func CheckedOrGuardedBy(x ssa.Instruction, c *ssa.Call) bool {
+	for _, g := range GuardsOf(x) {
+		v := CondOf(g.If.Cond).X
+		if v == ssa.Value(c) {
+			return true
+		}
+		if ph, ok := v.(*ssa.Phi); ok {
+			for _, e := range ph.Edges {
+				if e == ssa.Value(c) {
+					return true
+				}
+			}
+		}
+	}
+	return false
+}
